@@ -253,10 +253,13 @@ DAG_ENGINE = "E3 seqmc (serial multi-worker simulator driving the real DAG Recor
 DAG_ASSUME = ["the recorder sources (src/profiler/*.c, dag_recorder_inl.h) are compiled unchanged with -DMYTH_VERIF, whose only effect there is the virtual-clock seam dr_verif_clock in dr_get_tsc",
               "executions are produced by a serial simulator of a work-first scheduler on W workers: steals happen when work appears or a worker becomes idle, at most 2 steals/migrations per execution",
               "bounded: programs of <= 3 (quick) / 4 (thorough) tasks, <= 3 sections, nesting <= 2; interval lengths from patterns over {1,3,10}; option settings as listed"]
-prop("C18", lambda tier: [binc("c18", "DAG_COMPONENTS=c18 engine/build_dag.sh", "build/c18/c18 --tier quick --stats {stats}", "build/c18/c18 --tier thorough --stats {stats}", DAG_ENGINE, deadline=(600, 3000))],
+prop("C18", lambda tier: [binc("c18", "DAG_COMPONENTS=c18 engine/build_dag.sh", "build/c18/c18 --tier quick --stats {stats}", "build/c18/c18 --tier thorough --stats {stats}", DAG_ENGINE, deadline=(600, 3000)),
+                          binc("c19_for_c18", "DAG_COMPONENTS=c19 DAG_SUFFIX=_for_c18 engine/build_dag.sh", "build/c19_for_c18/c19 --prop C18 --comp c19_for_c18 --tier quick --stats {stats}",
+                               "build/c19_for_c18/c19 --prop C18 --comp c19_for_c18 --tier thorough --stats {stats}", DAG_ENGINE, deadline=(900, 4000))],
      "all well-nested programs (task ::= section* end; section ::= (section|create)* wait; 'other' intervals) of the bound x timing patterns x explicit/implicit section opening x W workers x all steal/migration schedules "
      "(<= 2) x contraction settings (12 path-selecting settings quick, the whole 90-setting grid thorough); root summary and parsed .stat totals vs an oracle computed from the interval list, and across the option grid; "
-     "distinct = cases whose recorded DAG differs byte-wise from that of every earlier option setting of the same execution",
+     "distinct = cases whose recorded DAG differs byte-wise from that of every earlier option setting of the same execution; "
+     "plus the file component of C19 (contraction after the fact: every dumped DAG converted under 20 shrink settings, totals of the converted DAG == totals of its input)",
      assumptions=DAG_ASSUME)
 prop("C19", lambda tier: [binc("c19", "DAG_COMPONENTS=c19 engine/build_dag.sh", "build/c19/c19 --tier quick --stats {stats}", "build/c19/c19 --tier thorough --stats {stats}", DAG_ENGINE, deadline=(900, 4000))],
      "the executions of C18 x record-time settings, each dumped, read back (raw bytes, dr_read_dag, string table with 1-4 file names), validated structurally by an independent validator, replayed chronologically, "
